@@ -39,7 +39,7 @@ def init_part(rng, c, sim, styles=("list", "single", "rho", "default")):
     elif style == "single":
         c["init"] = dict(kind="single", node=rng.choice(nodes))
     elif style == "rho":
-        rhos = [F(1, 4), F(1, 2), F(1, 8), F(3, 4), F(1)]
+        rhos = [F(1, 4), F(1, 2), F(1, 8), F(3, 4), F(1), F(0)]          # rho = 0 is a number: int(round(N*0)) = 0 nodes
         # exact halves N*rho = m + 1/2 (round-half-even vs half-up, floor vs round): one case in three when possible
         halves = [F(2 * m + 1, 2 * c["n"]) for m in range(c["n"]) if F(2 * m + 1, 2 * c["n"]) <= 1
                   and (2 * c["n"]) & (2 * c["n"] - 1) == 0]          # dyadic only: the float product N*rho is exact
@@ -55,7 +55,7 @@ def init_part(rng, c, sim, styles=("list", "single", "rho", "default")):
         if rest:
             c["recs"] = rng.sample(rest, rng.randint(1, min(2, len(rest))))
     # 16384: a run continued in "calendar time" — absolute tolerances (isclose-style comparisons with tmin) become visible
-    c["tmin"] = str(rng.choice([F(0), F(0), F(1), F(-1, 2), F(5, 2), F(16384)]))
+    c["tmin"] = str(rng.choice([F(0), F(0), F(1), F(-1, 2), F(5, 2), F(-3), F(16384)]))
 
 
 def gen_case(rng, sim, nmax=8):
